@@ -3,5 +3,5 @@ Require Import ExtrOcamlBasic.
 From Coq Require Import NArith ZArith List.
 From CppcmsV Require Import C06.Defs.
 Definition keep_types : (N * Z * nat) := (0%N, 0%Z, 0%nat).
-Extraction "c06m.ml" keep_types do_step request run world0 fresh_hex st_load get_jar load_data save_data
+Extraction "c06m.ml" keep_types do_step request request_dels run world0 fresh_hex st_load get_jar load_data save_data
   sid_ok valid_sid tenth_gt show_Z parse_Z mutate.
